@@ -12,8 +12,20 @@ from vlib.core import Result
 NAME = "lldata"
 LEAN_MODULE = "BluetoeModel.LlData"
 DRIVER = "drv_lldata"
-HARNESS_DESC = "harness/lldata.cpp (real ll_data_pdu_buffer<TX,RX,mock radio>, 5 size/layout variants)"
-HARNESS = dict(src="harness/lldata.cpp")
+HARNESS_DESC = ("harness/lldata.cpp (real ll_data_pdu_buffer<TX,RX,mock radio>, 5 size/layout variants); C16 also "
+                "harness/lldata/nrf52_ccm.cpp (the same with the real nrf52.cpp + security_tool_box.cpp on emulated registers)")
+HARNESS = {
+    "default": dict(src="harness/lldata.cpp"),
+    # C16: the same harness plus the real nRF52 binding (nrf52.cpp, security_tool_box.cpp) on emulated registers
+    "nrf52": dict(src="harness/lldata/nrf52_ccm.cpp", std="c++14",
+                  repo_srcs=["bluetoe/utility/address.cpp", "bluetoe/link_layer/delta_time.cpp"],
+                  includes=["bluetoe/bindings/nordic/include", "bluetoe/bindings/nordic/nrf52/include",
+                            "bluetoe/bindings/nordic/uECC", "tests/test_tools"],
+                  abs_includes=["harness/lldata/nrf_stub"],
+                  flags=core.DEFAULT_FLAGS + ["-fpermissive", "-no-pie"],
+                  c_srcs=["bluetoe/bindings/nordic/uECC/uECC.c", "tests/test_tools/aes.c"],
+                  c_defines=["uECC_CURVE=uECC_secp256r1"]),
+}
 
 # reset k -> (max body the central may send, max body the link layer may commit)
 CONFIGS = {0: (27, 27), 1: (27, 27), 2: (48, 48), 3: (27, 27), 4: (58, 58)}
@@ -181,19 +193,22 @@ def annotate(ops, outs):
             res.append(op + (" a=0" if out == "full" else " a=1"))
         elif w in ("rx", "ev"):
             res.append(op + (" a=0" if out.startswith("a=0") else " a=1"))
+        elif w == "enc" and op.split()[1] == "setup":
+            # the model is told IVm and the IVs that setup_encryption() returned (random_number32() is C37's business)
+            res.append("enc setup %s %s" % (op.split()[4], fields(out).get("ivs", "-")))
         else:
             res.append(op)
     return res
 
 
-def run_pair(ctx, sessions, proj):
-    impl = ctx.run_impl(sessions)
+def run_pair(ctx, sessions, proj, key="default"):
+    impl = ctx.run_impl(sessions, key)
     model = ctx.run_model([annotate(ops, r["out"]) for ops, r in zip(sessions, impl)])
     return impl, model, core.compare_sessions(sessions, impl, model, proj)
 
 
-def shrink_disagreement(ctx, ops, proj):
-    return ctx.shrink(ops, lambda cand: bool(run_pair(ctx, [cand], proj)[2]), budget=60)
+def shrink_disagreement(ctx, ops, proj, key="default"):
+    return ctx.shrink(ops, lambda cand: bool(run_pair(ctx, [cand], proj, key)[2]), budget=60)
 
 
 COUNTERS = re.compile(r" rc=\d+ tc=\d+")
@@ -209,6 +224,16 @@ def proj_c16(op, line):
     f = fields(line)
     if "rc" in f:
         return "a=%s rc=%s tc=%s" % (f.get("a", "-"), f["rc"], f["tc"])
+    return ""
+
+
+def proj_nonce(op, line):
+    """C16 on the nrf52 harness: allocation outcome, counter callbacks, the nonce inputs in the CCM configuration, the IV"""
+    f = fields(line)
+    if "rc" in f:
+        return "a=%s rc=%s tc=%s rn=%s tn=%s" % (f.get("a", "-"), f["rc"], f["tc"], f.get("rn", ""), f.get("tn", ""))
+    if "iv" in f:
+        return "iv=" + f["iv"]
     return ""
 
 
@@ -606,6 +631,211 @@ def check_counter(ctx, res):
             break
 
 
+# ------------------------------------------------------------------------------------------------
+# C16 on the real nRF52 binding: the nonce inputs (packet counter, direction, IV) that
+# configure_receive_train() / configure_final_transmit() put into the CCM configuration
+# ------------------------------------------------------------------------------------------------
+def gen_enc_session(rng, faults):
+    """plain exchanges, LL encryption start as the link layer does it (setup_encryption, start_receive_encrypted,
+    start_transmit_encrypted), traffic with faults, sometimes pause / restart with a new IV"""
+    cfg = rng.choice([3, 4, 4, 0])
+    max_rx, max_tx = CONFIGS[cfg]
+    ops = ["reset %d" % cfg]
+
+    def traffic(n, p_fault):
+        for _ in range(n):
+            r = rng.random()
+            if r < 0.25:
+                ops.append("tx %d %s" % (rng.choice([1, 2, 3]), hexs(rand_body(rng, max_tx))))
+            elif r < 0.45:
+                ops.append("free")
+            else:
+                llid, body = central_msg(rng, max_rx, "lossy")
+                f1, f2 = (rng.choice(faults), rng.randrange(2)) if rng.random() < p_fault else ("ok", 1)
+                ops.append("ev %s %d %d %s" % (f1, f2, llid, hexs(body)))
+
+    def setup():
+        ops.append("enc setup %s %s %s %s" % (bytes(rng.randrange(256) for _ in range(16)).hex(),
+                                              bytes(rng.randrange(256) for _ in range(8)).hex(),
+                                              bytes(rng.randrange(256) for _ in range(4)).hex(),
+                                              bytes(rng.randrange(256) for _ in range(12)).hex()))
+
+    p_fault = rng.choice([0.05, 0.3, 0.5])
+    traffic(rng.randrange(0, 5), p_fault)
+    rounds = rng.choice([1, 1, 2, 3])
+    for i in range(rounds):
+        # the link layer's order (C28): setup_encryption only while nothing is encrypted, start_receive_encrypted and
+        # start_transmit_encrypted once per setup
+        setup()
+        traffic(rng.randrange(0, 3), p_fault)
+        ops.append("enc rx")
+        traffic(rng.randrange(0, 4), p_fault)
+        ops.append("enc rxtx")
+        traffic(rng.randrange(4, 30), p_fault)
+        if i + 1 < rounds or rng.random() < 0.5:
+            # encryption pause: stop_receive_encrypted, stop_transmit_encrypted
+            ops.append("enc tx")
+            traffic(rng.randrange(0, 4), p_fault)
+            ops.append("enc off")
+            traffic(rng.randrange(0, 4), p_fault)
+    ops += ["ev ok 1 1 -"] * 3
+    ops += ["free"] * 40
+    ops.append("state")
+    return ops
+
+
+def carry_session():
+    """more than 256 counted PDUs in either direction: the carry into the second counter octet"""
+    ops = ["reset 4", "enc setup %s %s 24abdcba %s" % ("00" * 16, "11" * 8, "0102030405060708bebaafde"), "enc rx", "enc rxtx"]
+    for i in range(300):
+        ops += ["tx 2 %02x" % (i % 256), "ev ok 1 2 %02x%02x" % (i % 256, i // 256), "free"]
+        if i % 50 == 7:
+            ops += ["ev lost 0 2 aa", "ev ok 0 2 aa", "ev mic 1 2 aa"]
+    return ops + ["ev ok 1 1 -"] + ["free"] * 12 + ["state"]
+
+
+def nonce_str(count, direction, iv):
+    return "%s:%d:%s" % ((count % 2 ** 40).to_bytes(5, "little").hex(), direction, iv)
+
+
+def nonce_monitor(ops, outs):
+    """independent observer: what the air interface shows (central PDU, answer, acknowledgements) determines how many
+    non-empty PDUs of either direction were acknowledged since encryption of that direction started; the nonce inputs
+    in the CCM configuration must be exactly that count (little endian), the direction (1 = central to peripheral) and
+    IVm || IVs; no nonce may be configured for two different PDUs of one direction under one IV."""
+    iv = "00" * 8
+    rx_enc = tx_enc = False
+    rx_cnt = tx_cnt = 0
+    ci = 0                  # index of the central's PDU in flight
+    p_acked = set()         # central PDUs the peripheral acknowledged
+    last = None             # the previous answer
+    used_rx, used_tx = {}, {}
+    # the reuse check presupposes the link layer's call order (C28): setup_encryption while nothing is encrypted,
+    # then start_receive_encrypted and start_transmit_encrypted once each; otherwise the caller resets a counter
+    # under a key / IV that was already used and only the layout is checked from there on
+    may_rx = may_tx = False
+    in_contract = True
+    for k, (op, out) in enumerate(zip(ops, outs)):
+        w = op.split()
+        f = fields(out)
+        if w[0] == "reset":
+            continue
+        if w[0] == "enc":
+            if w[1] == "setup":
+                in_contract = in_contract and not rx_enc and not tx_enc
+                may_rx = may_tx = True
+            elif w[1] == "rx":
+                in_contract, may_rx = in_contract and may_rx, False
+            elif w[1] == "rxtx":
+                in_contract, may_tx = in_contract and may_tx and not may_rx, False
+            if w[1] == "setup":
+                iv = w[4] + f["ivs"]
+                used_rx, used_tx = {}, {}
+                if f["iv"] != iv:
+                    raise Violation("C16:ccm-iv-not-ivm-ivs", "op %d: IVm %s, IVs %s (returned to the link layer), CCM configuration has IV %s"
+                                    % (k, w[4], f["ivs"], f["iv"]), k)
+            elif w[1] == "rx":
+                rx_enc, tx_enc, rx_cnt = True, False, 0
+            elif w[1] == "rxtx":
+                rx_enc, tx_enc, tx_cnt = True, True, 0
+            elif w[1] == "tx":
+                rx_enc, tx_enc = False, True
+            elif w[1] == "off":
+                rx_enc, tx_enc, iv = False, False, "00" * 8
+            continue
+        if w[0] != "ev":
+            continue
+        x, r = parse_pdu(f["c"]), parse_pdu(f["r"])
+        if "rn" not in f:       # before the first `enc` op of the session the harness does not report (nothing is encrypted)
+            f["rn"], f["tn"] = "plain", ("-" if r is None else "plain")
+        # ---- reception: configured before the PDU arrives
+        want = nonce_str(rx_cnt, 1, iv) if rx_enc else "plain"
+        if f["rn"] != want:
+            raise Violation("C16:ccm-nonce-not-the-specified-layout",
+                            "op %d: reception configured with %s; %d non-empty PDUs of the central were acknowledged since receive "
+                            "encryption started, IV %s: expected %s" % (k, f["rn"], rx_cnt, iv, want), k)
+        if r is None:
+            if f["tn"] != "-":
+                raise Violation("C16:ccm-nonce-not-the-specified-layout", "op %d: transmission configured without an answer" % k, k)
+            continue
+        if r["nesn"] != x["sn"] and ci not in p_acked:
+            p_acked.add(ci)
+            if x["len"] != 0:
+                if rx_enc and in_contract:
+                    if used_rx.get(f["rn"], ci) != ci:
+                        raise Violation("C16:ccm-nonce-reused-for-different-pdu",
+                                        "op %d: central PDU #%d accepted with nonce %s, which was used for PDU #%d" % (k, ci, f["rn"], used_rx[f["rn"]]), k)
+                    used_rx[f["rn"]] = ci
+                rx_cnt += 1
+        # ---- transmission: a new sequence number means the previous PDU was acknowledged
+        if last is not None and r["sn"] != last["sn"] and last["len"] != 0:
+            tx_cnt += 1
+        last = r
+        want = nonce_str(tx_cnt, 0, iv) if tx_enc and r["len"] != 0 else "plain"
+        if f["tn"] != want:
+            raise Violation("C16:ccm-nonce-not-the-specified-layout",
+                            "op %d: answer %s configured with %s; %d non-empty PDUs of the peripheral were acknowledged since transmit "
+                            "encryption started, IV %s: expected %s" % (k, f["r"], f["tn"], tx_cnt, iv, want), k)
+        if f["tn"] != "plain" and in_contract:
+            m = (r["llid"], r["body"])
+            if used_tx.get(f["tn"], m) != m:
+                raise Violation("C16:ccm-nonce-reused-for-different-pdu",
+                                "op %d: answer %s encrypted with nonce %s, which was used for another PDU" % (k, f["r"], f["tn"]), k)
+            used_tx[f["tn"]] = m
+        if w[2] == "1" and r["nesn"] != x["sn"]:
+            ci += 1
+
+
+def check_nonce(ctx, res):
+    faults = ["ok", "lost", "crc", "mic"]
+    sessions = [ops for ops in corpus_sessions(ctx) if any(o.startswith("enc") for o in ops)]
+    sessions.append(carry_session())
+    for _ in range(1500 if ctx.thorough else 150):
+        sessions.append(gen_enc_session(ctx.rng, faults))
+    impl, model, dis = run_pair(ctx, sessions, proj_nonce, "nrf52")
+    for d in dis:
+        ops = sessions[d["session"]]
+        if len(ops) < 300 and not any("nrf52" in str(x.get("harness")) for x in res.disagreements):
+            ops = shrink_disagreement(ctx, ops, proj_nonce, "nrf52")
+        res.disagreements.append(dict(d, ops=ops[:200], harness="nrf52"))
+    for ops, r in zip(sessions, impl):
+        outs = r["out"]
+        res.evaluations += len(outs)
+        res.sessions += 1
+        res.count("nrf52_sessions")
+        res.count("nrf52_exchanges_with_encrypted_reception", sum(1 for x in outs if " rn=" in x and " rn=plain" not in x))
+        res.count("nrf52_encrypted_answers", sum(1 for x in outs if " tn=" in x and " tn=plain" not in x and " tn=-" not in x))
+        if r["crash"]:
+            res.failures.append({"key": "C16:crash:%s" % r["crash"].split(" @")[0], "what": r["crash"], "ops": ops[:len(outs) + 1][-60:]})
+            continue
+        if "bad-op" in outs:
+            res.failures.append({"key": "C16:generator-out-of-contract", "what": "bad-op answered (nrf52 harness)", "ops": ops[:60]})
+            continue
+        try:
+            monitor("C16", ops, outs, True)
+            nonce_monitor(ops, outs)
+        except Violation as v:
+            seen = sum(1 for f in res.failures if f["key"] == v.key)
+            if seen >= 3:
+                continue
+            small = ops[:v.k + 1]
+            if seen == 0 and len(small) < 200:
+                def still(cand, key=v.key):
+                    o = ctx.run_impl([cand], "nrf52")[0]
+                    if o["crash"] or "bad-op" in o["out"]:
+                        return False
+                    try:
+                        monitor("C16", cand, o["out"], True)
+                        nonce_monitor(cand, o["out"])
+                    except Violation as v2:
+                        return v2.key == key
+                    except Exception:
+                        return False
+                    return False
+                small = ctx.shrink(small, still, budget=40)
+            res.failures.append({"key": v.key, "what": v.what, "ops": small, "harness": "nrf52", "unshrunk": ops[:v.k + 1][-80:]})
+
+
 def run_c16(ctx, replay_path=None):
     res = Result()
     faults = ["ok", "ok", "lost", "crc", "mic"]
@@ -615,8 +845,13 @@ def run_c16(ctx, replay_path=None):
                 "exchange); the observer checks after every exchange: receive calls = new non-empty central PDUs acknowledged so "
                 "far, transmit calls = non-empty peripheral PDUs transmitted and acknowledged so far. counter::increment/copy_to: "
                 "source text cut out of nrf52.hpp/.cpp, compiled on the host, compared with the model and with 40 bit arithmetic "
-                "at all carries")
-    sessions = corpus_sessions(ctx)
+                "at all carries. Harness key nrf52: the same harness linked with the real nrf52.cpp + security_tool_box.cpp on "
+                "emulated registers; sessions with setup_encryption / configure_encryption (start, pause, restart with a new IV), "
+                "faults and a 300 PDU carry session; the packet counter / direction / IV octets that configure_receive_train and "
+                "configure_final_transmit leave in the CCM configuration (when they start the key stream generation) are compared "
+                "with the model (Ccm) and checked by an observer: counter = acknowledged non-empty PDUs of that direction since its "
+                "encryption started, direction bit, IV = IVm || IVs, no nonce for two different PDUs of one direction under one IV")
+    sessions = [ops for ops in corpus_sessions(ctx) if not any(o.startswith("enc") for o in ops)]
     n = 2500 if ctx.thorough else 300
     for i in range(n):
         sessions.append(gen_system_session(ctx.rng, faults))
@@ -628,6 +863,7 @@ def run_c16(ctx, replay_path=None):
     res.extra["exhaustive_small_scope"] = "every pattern over %s of %d exchanges x 3 traffic shapes (encrypted layout)" % (alphabet, depth)
     evaluate(ctx, res, "C16", sessions, proj_c16, check_counters=True)
     check_counter(ctx, res)
+    check_nonce(ctx, res)
     res.samples = [" ; ".join(s[:10]) for s in sessions[len(corpus_sessions(ctx)):][:3]]
     return res
 
@@ -646,6 +882,7 @@ PROPS = {
     "C15": dict(
         theorems=["BluetoeModel.LlData." + t for t in THEOREMS_C15],
         witnesses=[],
+        harness_keys=["default"],
         run=run_c15,
         level="proof",
         technique="Lean 4 invariant proof over all fault lists, traffic and ring allocation outcomes for the closed system "
@@ -663,18 +900,24 @@ PROPS = {
     ),
     "C16": dict(
         theorems=["BluetoeModel.LlData.rx_counter_eq_new_nonempty", "BluetoeModel.LlData.tx_counter_eq_acked_nonempty",
-                  "BluetoeModel.LlData.counter_increment_succ", "BluetoeModel.LlData.counter_bytes_value"],
+                  "BluetoeModel.LlData.counter_increment_succ", "BluetoeModel.LlData.counter_bytes_value",
+                  "BluetoeModel.LlData.ccm_nonce_no_reuse", "BluetoeModel.LlData.ccm_nonce_layout"],
         witnesses=["BluetoeModel.LlData.tx_counter_empty_commit_witness"],
+        harness_keys=["default", "nrf52"],
         run=run_c16,
         level="proof",
         technique="as C15, the model instrumented with the two counter callbacks; counter::increment as 40 bit add, tied by a host "
-                  "build of the source text cut out of nrf52.hpp/.cpp",
+                  "build of the source text cut out of nrf52.hpp/.cpp and by running the real nrf52.cpp (configure_encryption, "
+                  "setup_encryption, configure_receive_train, configure_final_transmit) on emulated registers behind the real buffer",
         level_text="For every history: receive callback count = non-empty acknowledged central PDUs (= the central's own count "
                    "whenever a new PDU can arrive), transmit callback count = non-empty acknowledged PDUs and indexes the committed "
-                   "PDUs (k-th committed PDU always sent with counter k). counter::increment is +1 mod 2^40.",
+                   "PDUs (k-th committed PDU always sent with counter k). counter::increment is +1 mod 2^40. ccm_nonce_no_reuse: "
+                   "the nonces configured after i and j counter callbacks differ for i != j < 2^39 (same direction and IV); "
+                   "ccm_nonce_layout: counter little endian (39 bit), direction bit, IVm || IVs.",
         level_note="The transmit theorem assumes commits carry payload (witness theorem shows the assumption is needed; no call "
-                   "site violates it). The counters themselves live in the nRF52 binding, which is not built on the host: only "
-                   "struct counter is (text extraction).",
+                   "site violates it). The nRF52 binding runs on emulated registers (harness/lldata/nrf_stub): what is observed is the "
+                   "CCM configuration memory at the moment TASKS_KSGEN is written, the layout PKTCTR/DIRECTION/IV of that memory is "
+                   "taken from the nRF52832 product specification; the CCM itself (key stream, MIC) is not emulated.",
         design_ref="§5 C16",
         assumptions=ASSUME,
     ),
@@ -682,6 +925,7 @@ PROPS = {
         theorems=["BluetoeModel.LlData.mic_fail_not_acked", "BluetoeModel.LlData.mic_fail_retransmitted_or_delivered",
                   "BluetoeModel.LlData.rx_exactly_once_in_order"],
         witnesses=["BluetoeModel.LlData.mic_fail_witness_orig"],
+        harness_keys=["default"],
         run=run_c17,
         level="proof",
         technique="as C15 with MIC failures in the fault lists; the model is the code with fixes/lldata-01 applied; the defect of "
